@@ -340,6 +340,77 @@ def gen_timers_history(rng):
     emit("end")
 
 ASCII = [0x41 + i for i in range(26)] + [0x20, 0x61, 0x7e]
+
+PEN_ATTRS = ["fg", "bg", "b", "u", "i", "rv", "strike", "af", "blink", "sizepos"]
+def rand_colour(rng, rich):
+    r = rng.random()
+    if r < 0.08: idx = -1
+    elif r < 0.30: idx = rng.choice([0, 1, 7, 8, 9, 15])
+    else: idx = rng.choice([16, 17, 100, 200, 231, 254, 255])
+    if idx >= 0 and rng.random() < (0.9 if rich else 0.35):
+        return "%d#%02x%02x%02x" % (idx, rng.randrange(256), rng.randrange(256), rng.randrange(256))
+    return "%d" % idx
+def rand_pen(rng, rich):
+    """a pen description in the notation of harness/sgr.c; `rich`: (nearly) every attribute present, both colours with an
+    RGB8 secondary, a styled underline - what needs the most SGR parameters"""
+    if not rich and rng.random() < 0.08: return "-"
+    out = []
+    for a in PEN_ATTRS:
+        if rng.random() > (0.93 if rich else 0.45): continue
+        if a in ("fg", "bg"): v = rand_colour(rng, rich)
+        elif a == "u": v = str(rng.choice([2, 3, 3, 1] if rich else [0, 1, 2, 3]))
+        elif a == "af": v = str(rng.choice([1, 2, 5, 9] if rich else [-1, 0, 1, 3, 9]))
+        elif a == "sizepos": v = str(rng.choice([2, 3] if rich else [0, 2, 3]))
+        else: v = str(1 if rich else rng.choice([0, 1, 1]))
+        out.append("%s=%s" % (a, v))
+    return ",".join(out) or "-"
+
+def gen_termout_history(rng):
+    """the output side of the main terminal through the real xterm driver: tickit_term_set_output_buffer (installed, grown,
+    shrunk below what is pending, to one byte, removed) with output pending from tickit_term_printn / _goto / _setpen,
+    flushed or not; the driver's capabilities switched on by the DECRQSS reply or the xterm.cap_rgb8 control;
+    tickit_term_setpen / _chpen with pens of every attribute (both colours RGB8, styled underline: 19 SGR parameters) -
+    next to quiet lifecycle operations (windows, pens, references) that reach no driver."""
+    kind = rng.choice(["new", "new", "new", "newin"])
+    emit("%s %d %d" % (kind, rng.choice([6, 10]), rng.choice([12, 20])))
+    nw = 1; npens = 0; trefs = 1
+    if rng.random() < 0.75:
+        emit("tcaps %d %d %s" % (rng.choice([1, 1, 1, 0]), rng.choice([1, 1, 0]), rng.choice(["reply", "reply", "ctl"])))
+    buflen = 0; pending = 0
+    def text(n=None):
+        n = n if n is not None else rng.choice([1, 2, 5, 8, 13, 26, 40, 70])
+        return "".join("%02x" % rng.choice(ASCII) for _ in range(n))
+    for _ in range(rng.randint(5, 18)):
+        r = rng.random()
+        if r < 0.20:
+            # a buffer: around what is pending (smaller, equal, one more), tiny, roomy, or none
+            cand = [0, 1, 2, 8, 16, 64, 256]
+            if pending: cand += [max(1, pending - 1), pending, pending + 1, max(1, pending // 2), max(1, pending - 1), 1]
+            buflen = rng.choice(cand); emit("tbuf %d" % buflen); pending = 0
+        elif r < 0.40:
+            n = rng.choice([1, 2, 5, 8, 13, 26, 40, 70]); emit("tprint %s" % text(n))
+            pending = (pending + n) % buflen if buflen else 0
+        elif r < 0.48:
+            emit("tgoto %d %d" % (rng.randint(0, 9), rng.randint(0, 19))); pending = pending + 6 if buflen else 0
+        elif r < 0.58: emit("tflush"); pending = 0
+        elif r < 0.80:
+            rich = rng.random() < 0.6
+            emit("%s %s" % (rng.choice(["tsetpen", "tsetpen", "tchpen"]), rand_pen(rng, rich)))
+            if buflen: pending += 30
+        elif r < 0.84:
+            emit("tcaps %d %d %s" % (rng.choice([1, 0]), rng.choice([1, 0]), rng.choice(["reply", "ctl", "ctl"])))
+        elif r < 0.88:
+            emit("win %d %d %d %d %d 0" % ((rng.randrange(nw),) + rect(rng))); nw += 1
+        elif r < 0.91 and nw > 1: emit("%s %d" % (rng.choice(["unref", "close", "ref", "raise", "hide"]), rng.randrange(1, nw)))
+        elif r < 0.94:
+            if npens == 0 or rng.random() < 0.5: emit("pen"); npens += 1
+            else:
+                k = rng.choice(["pref", "punref", "pset"]); emit("%s %d%s" % (k, rng.randrange(npens), " 3" if k == "pset" else ""))
+        elif r < 0.97: emit(rng.choice(["tref", "tunref", "tref"]))
+        else: emit("tick %d" % rng.choice([10, 60]))
+    if rng.random() < 0.3: emit("tflush")
+    emit("end")
+
 def rand_text(rng, maxchars=8):
     out = []
     for _ in range(rng.randint(0, maxchars)):
@@ -954,7 +1025,7 @@ if a.tier == "exhaustive":
     info.update({"exhaustive_bound": "all sequences of <=3 (and a seed-selected quarter of the length-4) operations over a 13-letter lifecycle alphabet on root>1>2, 3 sibling of 1, one pen, one self-unref key handler; each followed by flush and end; tickit_mockterm_get_display_text with every buffer length (short of the known exact-fill overflow) for every span of five fixed lines of multi-byte, double-width and combining cells; all sequences of <=3 operations over a 12-letter alphabet of terminal input calls with a quitting key handler on the terminal, and over a 14-letter alphabet of toplevel-instance calls on root>1>2; tickit_mockterm_resize from 3x4 to every size of 1..5 x 1..6 and on to a second size; all sequences of <=2 (and half of those of 3) operations over a 12-letter alphabet of observe/stop/destroy/SIGWINCH on four observing terminals", "histories": nh})
 else:
     scale = 1 if a.tier == "quick" else 5
-    fams = {"tree": 700, "handlers": 700, "foreign": 400, "objects": 400, "pens": 400, "copyout": 400, "terminput": 500, "toplevel": 500, "mockresize": 360, "sigwinch": 400, "drag": 400, "timers": 300}
+    fams = {"tree": 700, "handlers": 700, "foreign": 400, "objects": 400, "pens": 400, "copyout": 400, "terminput": 500, "toplevel": 500, "mockresize": 360, "sigwinch": 400, "drag": 400, "timers": 300, "termout": 400}
     if a.families:
         fams = {k: v for k, v in fams.items() if k in a.families.split(",")}
     for fam, n in fams.items():
@@ -971,6 +1042,7 @@ else:
             elif fam == "sigwinch": gen_sigwinch_history(rng)
             elif fam == "drag": gen_drag_history(rng)
             elif fam == "timers": gen_timers_history(rng)
+            elif fam == "termout": gen_termout_history(rng)
             else: gen_copyout_history(rng)
             fam_count[fam] = fam_count.get(fam, 0) + 1
     info = {"histories": sum(fam_count.values()), "families": fam_count, "mresize_combinations": resize_mix}
